@@ -240,6 +240,17 @@ var SynCorpus = []*SynGrammar{
 			P("S", NT("A"), Lit("x")), P("S", Lit("b"), NT("A"), Lit("x")), P("S", Lit("b"), NT("C"), Lit("y")),
 			P("A", Lit("c")), P("C", Lit("c")),
 		}},
+	{Name: "G07", Why: "a nonterminal that is nullable only through a chain of unit productions, productions listed top-down (FIRST needs several rounds), its FIRST set used as a look-ahead",
+		Lex: stdLex,
+		Prods: []Prod{
+			P("S", NT("X"), NT("P")),
+			P("X", Lit("x")),
+			P("P", NT("A"), Lit("t")), P("P", NT("A"), Lit("u"), NT("P")),
+			P("A", NT("B")), P("A", Lit("b"), Lit("z")),
+			P("B", NT("C")),
+			P("C", NT("D")),
+			P("D", Lit("b")), P("D"),
+		}},
 	{Name: "G08", Why: "empty between terminals; mutual recursion",
 		Lex: stdLex,
 		Prods: []Prod{
